@@ -1,5 +1,6 @@
 import Psa.JsonIO
 import Psa.Config
+import Psa.Setup
 namespace PSA.IO
 open Lean PSA PSA.Config
 
@@ -50,5 +51,37 @@ def loadConfigOp (j : Json) : R Json := do
           (match e.index with | some i => Json.num (i : JsonNumber) | none => Json.null),
           Json.str (match e.kind with | .invalid => "invalid" | .duplicate => "duplicate")])).toArray),
       ("policy", match toPolicy c.defaults with | some p => jpolicy p | none => Json.null)]
+
+def errName : Setup.Err → String
+  | .noConfiguration => "noConfiguration" | .invalid => "invalid" | .toPolicy => "toPolicy" | .policyMismatch => "policyMismatch"
+  | .limitsNotSet => "limitsNotSet" | .noMetrics => "noMetrics" | .noExtractor => "noExtractor" | .noEvaluator => "noEvaluator"
+  | .noGetter => "noGetter" | .noLister => "noLister"
+
+/-- LoadConfig + Setup of the webhook on a document -/
+def setupOp (j : Json) : R Json := do
+  let d ← docOf (fldD j "doc")
+  match Setup.setup d with
+  | .loadError => return Json.mkObj [("outcome", "loadError")]
+  | .setupError e => return Json.mkObj [("outcome", "setupError"), ("err", errName e)]
+  | .serving p ex => return Json.mkObj [("outcome", "serving"), ("policy", jpolicy p),
+      ("usernames", jstrs ex.usernames), ("namespaces", jstrs ex.namespaces), ("runtimeClasses", jstrs ex.runtimeClasses)]
+
+/-- a controller assembled by hand: which dependencies are set, whether CompleteConfiguration is called, whether the
+    configuration is exchanged afterwards; answer: the error class of CompleteConfiguration / ValidateConfiguration -/
+def controllerOp (j : Json) : R Json := do
+  let cfg := Config.load (← docOf (fldD j "doc"))
+  let cfg' := Config.load (← docOf (fldD j "exchange"))
+  let cfg0 : Option Config.Cfg := if boolD j "noCfg" then none else cfg
+  let c0 : Setup.Ctl := Setup.Ctl.mk cfg0 none 0 0 (boolD j "metrics") (boolD j "extractor") (boolD j "evaluator") (boolD j "getter") (boolD j "lister")
+  let c1 ← (if boolD j "complete" then
+      match Setup.complete c0 with
+      | .ok c => pure (Except.ok c)
+      | .error e => pure (Except.error e)
+    else pure (Except.ok c0) : R (Except Setup.Err Setup.Ctl))
+  match c1 with
+  | .error e => return Json.mkObj [("complete", errName e)]
+  | .ok c =>
+    let c := if boolD j "doExchange" then { c with cfg := cfg' } else c
+    return Json.mkObj [("complete", "ok"), ("validate", match Setup.validateCtl c with | none => "ok" | some e => errName e)]
 
 end PSA.IO
